@@ -252,14 +252,14 @@ def gen_ops(rng, n_sessions, lists, thorough=False):
 
     def ocp():
         i, has, prov = ocps[rng.randrange(len(ocps))]
-        nh = rng.choice([1, 2]); nc = rng.choice([0, 0, 1, 2])
-        ops.append(f'new ocp {i} {has} {prov} {rng.getrandbits(13)} {nh} {nc}')
+        nh = rng.choice([0, 1, 2]); nc = rng.choice([0, 0, 1, 2])
+        ops.append(f'new ocp {i} {has} {prov} {rng.getrandbits(15)} {nh} {nc}')
         ops.extend(session_body(rng, OCP_ALL, lambda: ocp_args(rng, nh, nc), rng.choice([4, 10, 25]), 0.25))
 
     def dlocp():
         file, reg = rng.choice([k for k in LOAD_EXPECT if k[1].startswith('c20_ocp')])
         nh = rng.choice([1, 2]); nc = rng.choice([0, 1])
-        mask = rng.choice([(1 << 13) - 1, rng.getrandbits(13) | 0x181 if nc else rng.getrandbits(13)])
+        mask = rng.choice([(1 << 13) - 1, rng.getrandbits(13) | 0x281 if nc else rng.getrandbits(13)])
         ops.append(f'new dlocp {file} {reg} {mask} {nh} {nc} 0')
         ops.extend(session_body(rng, OCP_ALL, lambda: ocp_args(rng, nh, nc), rng.choice([4, 12]), 0.2))
 
@@ -401,6 +401,12 @@ def monitor(op, out, st):
             s['alive'] = out.startswith('ok')
             if exp is None:
                 return None
+            if kind == 'dlocp' and exp.startswith('ok') and s['m'] > 0:
+                # documented: nc > 0 makes get_D / eval_constr / eval_grad_constr_prod mandatory
+                need = [f for f in ('get_D', 'eval_constr', 'eval_grad_constr_prod')
+                        if not (s['mask'] >> OCP_BITS.index(f)) & 1]
+                if need:
+                    exp = 'err:missing:' + need[0]
             if out != exp:
                 if (s['file'], s['reg']) == ('nlp', 'c20_badversion') and out == 'ok warned=1':
                     return ('ABI mismatch reported by <name>_version() is not a load failure: the plug-in loads '
@@ -412,9 +418,11 @@ def monitor(op, out, st):
             return None
         if kind == 'ocp':
             # documented: a positive dimension makes the matching functions mandatory
-            P = lambda f: bool((s['has'] >> OCP_BITS.index(f)) & 1) and (
-                not (s['prov_mask'] >> OCP_BITS.index(f)) & 1 or bool((s['pv'] >> OCP_BITS.index(f)) & 1))
+            NB = OCP_BITS + ['eval_h', 'eval_h_N']
+            P = lambda f: bool((s['has'] >> NB.index(f)) & 1) and (
+                not (s['prov_mask'] >> NB.index(f)) & 1 or bool((s['pv'] >> NB.index(f)) & 1))
             need = [f for f in ('get_D', 'eval_constr', 'eval_grad_constr_prod') if s['m'] > 0 and not P(f)]
+            need += [f for f in ('eval_h', 'eval_h_N') if s['n'] > 0 and not P(f)]
             s['alive'] = out == 'ok'
             if need and out != 'err:missing:' + need[0]:
                 return f'OCP with nc={s["m"]} lacking {need}: constructor answered {out!r}'
@@ -480,6 +488,10 @@ def monitor(op, out, st):
                     if (s['prov_mask'] >> hp) & 1 and not (s['prov_mask'] >> h) & 1 and not (s['pv'] >> hp) & 1:
                         return ('counted wrapper reports eval_hess_ψ_prod as provided although the problem\'s '
                                 'provides_eval_hess_ψ_prod() returns false (problem has no provides_eval_hess_ψ)', K_F3)
+                if s['ocp'] and set(diff) <= {'eval_h', 'eval_h_N'}:
+                    s['f5'] = True
+                    return (f'counted OCP wrapper reports {diff} as provided although the problem\'s provides_ '
+                            f'member returns false (no provides_eval_h / provides_eval_h_N forward): {head} vs {o}', K_F5)
                 return f'capability flags differ between wrapper and underlying problem for {diff}: {head} vs {o}'
         return None
     if t[0] == 'call':
@@ -521,6 +533,10 @@ def monitor(op, out, st):
                     mon.count(w, ['hess_ψ_prod'])
                     return ('through the counted wrapper eval_hess_ψ_prod runs the problem\'s function although the '
                             'problem reports it as not provided (directly: ' + D['st'] + ', ran ' + D['log'] + ')', K_F3)
+            if s['ocp'] and s.get('f5') and fn in ('eval_h', 'eval_h_N') and W['log'] == fn:
+                mon.count(w, [fn[5:]])
+                return (f'through the counted OCP wrapper {fn} runs although the problem reports it as not provided '
+                        f'(directly: {D["st"]})', K_F5)
             msgs.append(f'{fn} through the counting wrapper gives ({W["st"]}, ran {W["log"]}, {W["vals"][:80]}), '
                         f'the underlying problem gives ({D["st"]}, ran {D["log"]}, {D["vals"][:80]})')
         # (d) counters: one increment per call made to the underlying problem through this sharing group
@@ -659,6 +675,8 @@ def main(argv):
             n = 2500 if thorough else 300
             ops = gen_ops(rng, n, (natives, ocps), thorough)
 
+            seen_keys = set()
+
             def run_monitors(ops, hout, label):
                 nonlocal found_input
                 st, bad = {}, 0
@@ -671,6 +689,11 @@ def main(argv):
                         key = None
                         if isinstance(m, tuple):
                             m, key = m
+                        if key is not None:
+                            # one report per (former) finding: the first failing input of each kind
+                            if key in seen_keys:
+                                continue
+                            seen_keys.add(key)
                         before = len(rep.violations)
                         # replay context: the whole session up to this op
                         j = i
@@ -679,12 +702,13 @@ def main(argv):
                         rep.violation(f'{label}: {m}', {'session_ops': ops[j:i + 1], 'impl_out': h, 'index': i}, True, key=key)
                         if len(rep.violations) > before:
                             found_input = True
-                            bad += 1
-                            if bad >= 5:
-                                break
+                            if key is None:
+                                bad += 1
+                                if bad >= 5:
+                                    break
                     if o.startswith('call'):
                         distinct.add(o)
-                return bad
+                return bad + len(seen_keys)
 
             hout, rc, err = C.run_lines(cmd, ops, timeout=1500)
             if rc != 0 or len(hout) != len(ops):
@@ -721,6 +745,9 @@ def main(argv):
                                                      'model': dout[i] if i < len(dout) else None}
             else:
                 broken.append('driver executable missing')
+            if thorough and os.path.exists(dexe) and not rep.violations:
+                abi_sweep(rep, cmd, dexe, broken, bits=int(os.environ.get('C20_SWEEP_BITS', '20')))
+                found_input = found_input or bool(rep.violations)
             if broken and not found_input:
                 rep.note('obligation / tie broken; searching for a failing input on the real code')
                 for k in range(6):
@@ -740,6 +767,50 @@ def main(argv):
                           {'broken': broken}, has_input=False)
         rep.cov['discharged'] = min(rep.cov['discharged'], max(0, rep.cov['obligations'] - 1))
     return rep.finish()
+
+
+def abi_sweep(rep, cmd, dexe, broken, bits=20, chunk_bits=15):
+    """thorough tier: every subset of the `bits` optional C-ABI table entries, for m ∈ {0, 2}: load, wrap, compare
+    the capability flags (wrapper = loader = direct reference = Lean driver) and, for every 8th table, one call."""
+    rng = random.Random(C.seed() * 31337)
+    total = bad = 0
+    first_diff = None
+    t0 = time.time()
+    for m in (0, 2):
+        for base in range(0, 1 << bits, 1 << chunk_bits):
+            ops = []
+            for mk in range(base, min(base + (1 << chunk_bits), 1 << bits)):
+                ops += [f'new dl nlp c20_register {mk} 2 {m} {mk % 16}', 'create', 'prov 0']
+                if mk % 8 == 0:
+                    ops.append(f'call 0 {NLP_ALL[(mk >> 3) % len(NLP_ALL)]} {nlp_args(rng, 2, m)}')
+            hout, rc, err = C.run_lines(cmd, ops, timeout=3000)
+            if rc != 0 or len(hout) != len(ops):
+                rep.violation(f'ABI sweep: real code crashed / aborted (rc={rc}) after {len(hout)} lines: {err[-200:]}',
+                              {'session_ops': ops[max(0, len(hout) - 4):len(hout) + 1]}, True)
+                return
+            dout, rc, err = C.run_lines(dexe, ops, timeout=3000)
+            i = C.diff_streams(ops, [strip(h) for h in hout], dout)
+            if i is not None and first_diff is None:
+                first_diff = (ops[i - (i % 1):i + 1], hout[i] if i < len(hout) else None, dout[i] if i < len(dout) else None)
+            st = {}
+            for k, (o, h) in enumerate(zip(ops, hout)):
+                mres = monitor(o, h, st)
+                if mres:
+                    key = None
+                    if isinstance(mres, tuple):
+                        mres, key = mres
+                    j = k
+                    while j > 0 and not ops[j].startswith('new '):
+                        j -= 1
+                    rep.violation(f'ABI sweep: {mres}', {'session_ops': ops[j:k + 1], 'impl_out': h}, True, key=key)
+                    bad += 1
+                    if bad >= 3:
+                        return
+            total += len(ops)
+    rep.cov['evaluations'] += total
+    rep.cov['abi_sweep'] = {'tables': 2 << bits, 'lines': total, 'wall_s': round(time.time() - t0, 1)}
+    if first_diff is not None:
+        broken.append(f'correspondence (ABI sweep): model and implementation differ: {first_diff}')
 
 
 def replay(r):
